@@ -147,10 +147,6 @@ loop:
 			Strs("command", p.getCommand()).
 			Msg("Started")
 
-		// every launch is probed afresh: the consecutive-failure counts (and the initial delay) of the
-		// previous launch do not carry over, otherwise a relaunched process that keeps failing is never
-		// found unhealthy again (the count has already passed failure_threshold)
-		p.stopProbes()
 		p.startProbes()
 
 		p.waitForStdOutErr()
@@ -171,6 +167,10 @@ loop:
 			p.waitForDaemonCompletion()
 		}
 
+		// this launch is over: there is nothing to probe until the next one, which is probed afresh - the
+		// consecutive-failure counts (and the initial delay) do not carry over, otherwise a relaunched
+		// process that keeps failing is never found unhealthy again (the count has passed failure_threshold)
+		p.stopProbes()
 		verifGate(p, "run.decide")
 		if !p.isRestartable() {
 			break
